@@ -440,6 +440,11 @@ func (handler *Handler) ProxyClientConnection(ctx context.Context, errCh chan<- 
 					handler.logger.WithError(err).WithField(logging.FieldKeyEventCode, logging.EventCodeErrorResponseConnectorCantWriteToClient).
 						Errorln("Can't write response with error to client")
 				}
+				if cmd == CommandStatementPrepare {
+					// for the client this COM_STMT_PREPARE has failed: "the statement prepared last" is not the one
+					// before it (which is what the database would run, it never saw this one)
+					handler.protocolState.SetLastPrepareRejected(true)
+				}
 				continue
 			}
 
@@ -459,6 +464,7 @@ func (handler *Handler) ProxyClientConnection(ctx context.Context, errCh chan<- 
 			case CommandQuery:
 				handler.setQueryHandler(handler.QueryResponseHandler)
 			case CommandStatementPrepare:
+				handler.protocolState.SetLastPrepareRejected(false)
 				handler.protocolState.SetPendingParse(queryObj)
 				handler.protocolState.SetStmtID(0)
 				handler.setQueryHandler(handler.PreparedStatementResponseHandler)
@@ -467,6 +473,17 @@ func (handler *Handler) ProxyClientConnection(ctx context.Context, errCh chan<- 
 			censorSpan.End()
 			break
 		case CommandStatementExecute:
+			if handler.protocolState.LastPrepareRejected() && len(data) >= 4 && binary.LittleEndian.Uint32(data) == MariaDBDirectStatementID {
+				// MariaDB: "the last statement prepared on current connection if no COM_STMT_PREPARE has failed
+				// since". The last COM_STMT_PREPARE was rejected by AcraCensor and the client (which may have sent
+				// this execution before it read the error) means that statement, so this fails as well
+				clientLog.Warningln("Statement Execute of the last prepared statement after AcraCensor rejected it")
+				if err := handler.answerClientPacketWithError(QueryExecutionWasInterrupted, packet); err != nil {
+					handler.logger.WithError(err).WithField(logging.FieldKeyEventCode, logging.EventCodeErrorResponseConnectorCantWriteToClient).
+						Errorln("Can't write response with error to client")
+				}
+				continue
+			}
 			stmtID, err := handler.handleStatementExecute(ctx, packet)
 			if err != nil {
 				errCh <- base.NewClientProxyError(err)
